@@ -130,46 +130,46 @@ example : ∃ A : ℝ →ₗ[ℝ] ℝ, (∀ x y, inner ℝ (A x) y = inner ℝ x
 end CG
 
 section Matrix
-variable {K : Type} [Field K] [HasConj K]
+variable {K : Type} [Field K] [HasConj K] [HasIsZero K]
 open Matrix
 
 /-- **`MatrixATADSolver.solve`, vector right-hand side, both paths.**  Whichever branch
-    `rows < cols ∧ D 1-D` selects, the returned `x` solves the documented system `(Aᴴ W A + D) x = b`, given
-    that the factorisation back end inverts the matrix that was factorised (contract of `lu/cho_solve`) and,
-    on the Woodbury path, that `D` and `W` have no zero entry (the identity divides by them). -/
-theorem C14_woodbury_matrix {m n : Nat} (s : ATAD K m n) (fsW : Vec K m → Vec K m) (fsD : Vec K n → Vec K n) (b : Vec K n)
+    `rows < cols ∧ D 1-D ∧ all(W ≠ 0)` selects, the returned `x` solves the documented system `(Aᴴ W A + D) x = b`,
+    given that the factorisation back end inverts the matrix that was factorised (contract of `lu/cho_solve`)
+    and, on the Woodbury path, that the 1-D `D` has no zero entry (the path divides by it; `W ≠ 0` there is
+    guaranteed by the branch rule since repo 58aa0a9).  `hz`: the scalar zero test is exact. -/
+theorem C14_woodbury_matrix (hz : LawfulIsZero K) {m n : Nat} (s : ATAD K m n) (fsW : Vec K m → Vec K m) (fsD : Vec K n → Vec K n) (b : Vec K n)
     (hfsW : ∀ d, s.D = .diag d → ∀ c, LinSolve.mulVec (gWoodbury s.A d s.W) (fsW c) = c)
     (hfsD : ∀ c, LinSolve.mulVec (gDirect s.A s.D s.W) (fsD c) = c)
-    (hnz : ∀ d, s.D = .diag d → m < n → (∀ k, d k ≠ 0) ∧ (∀ i, s.W i ≠ 0)) :
+    (hnz : ∀ d, s.D = .diag d → s.useWoodbury = true → ∀ k, d k ≠ 0) :
     (Matrix.of (conjT s.A) * Matrix.diagonal s.W * Matrix.of s.A + Matrix.of s.D.entry) *ᵥ (s.solve fsW fsD b) = b :=
-  atad_solve_spec s fsW fsD b hfsW hfsD hnz
+  atad_solve_spec hz s fsW fsD b hfsW hfsD hnz
 
 /-- the same for a 2-D right-hand side `B` -/
-theorem C14_woodbury_matrix_rhs2d {m n k : Nat} (s : ATAD K m n) (fsW : Mat K m k → Mat K m k) (fsD : Mat K n k → Mat K n k)
+theorem C14_woodbury_matrix_rhs2d (hz : LawfulIsZero K) {m n k : Nat} (s : ATAD K m n) (fsW : Mat K m k → Mat K m k) (fsD : Mat K n k → Mat K n k)
     (b : Mat K n k)
     (hfsW : ∀ d, s.D = .diag d → ∀ c, matMul (gWoodbury s.A d s.W) (fsW c) = c)
     (hfsD : ∀ c, matMul (gDirect s.A s.D s.W) (fsD c) = c)
-    (hnz : ∀ d, s.D = .diag d → m < n → (∀ k, d k ≠ 0) ∧ (∀ i, s.W i ≠ 0)) :
+    (hnz : ∀ d, s.D = .diag d → s.useWoodbury = true → ∀ k, d k ≠ 0) :
     ((Matrix.of (conjT s.A) * Matrix.diagonal s.W * Matrix.of s.A + Matrix.of s.D.entry) * Matrix.of (s.solveM fsW fsD b)
       : Matrix (Fin n) (Fin k) K) = Matrix.of b :=
-  atad_solveM_spec s fsW fsD b hfsW hfsD hnz
+  atad_solveM_spec hz s fsW fsD b hfsW hfsD hnz
 
-/-- the branch taken is exactly `rows < cols ∧ D 1-D`, and the matrix factorised is `W⁻¹ + A D⁻¹ Aᴴ`
-    (size rows) on that branch and `Aᴴ W A + D` (size cols) otherwise -/
-theorem C14_woodbury_branch {m n : Nat} (s : ATAD K m n) :
-    (s.useWoodbury = true ↔ m < n ∧ ∃ d, s.D = .diag d) ∧
-    (∀ d, s.D = .diag d → m < n → s.gOf = ⟨m, gWoodbury s.A d s.W⟩) ∧
+/-- the branch taken is exactly `rows < cols ∧ D 1-D ∧ no zero weight`, and the matrix factorised is
+    `W⁻¹ + A D⁻¹ Aᴴ` (size rows) on that branch and `Aᴴ W A + D` (size cols) otherwise -/
+theorem C14_woodbury_branch (hz : LawfulIsZero K) {m n : Nat} (s : ATAD K m n) :
+    (s.useWoodbury = true ↔ m < n ∧ (∃ d, s.D = .diag d) ∧ ∀ i, s.W i ≠ 0) ∧
+    (∀ d, s.D = .diag d → s.useWoodbury = true → s.gOf = ⟨m, gWoodbury s.A d s.W⟩) ∧
     (s.useWoodbury = false → s.gOf = ⟨n, gDirect s.A s.D s.W⟩) := by
   obtain ⟨A, D, W⟩ := s
   cases D with
   | diag d =>
-    refine ⟨by simp [ATAD.useWoodbury, DMat.isDiag], ?_, ?_⟩
-    · intro d' hd hmn
+    refine ⟨by simp [ATAD.useWoodbury, DMat.isDiag, allNonzero_iff hz], ?_, ?_⟩
+    · intro d' hd hwb
       cases hd
-      simp [ATAD.gOf, hmn]
+      simp [ATAD.gOf, hwb]
     · intro h
-      have : ¬ m < n := by simpa [ATAD.useWoodbury, DMat.isDiag] using h
-      simp [ATAD.gOf, this]
+      simp [ATAD.gOf, h]
   | full D =>
     refine ⟨by simp [ATAD.useWoodbury, DMat.isDiag], ?_, ?_⟩
     · intro d' hd; cases hd
@@ -205,6 +205,9 @@ end Matrix
 section NonVacuityMatrix
 /- a 1×2 real system on the Woodbury path: A = [1 1], D = diag(1,1), W = [1]; G = 1 + 2 = 3 -/
 local instance : HasConj ℚ := ⟨id⟩
+local instance : HasIsZero ℚ := ⟨fun x => decide (x = 0)⟩
+
+example : LawfulIsZero ℚ := fun x => by simp [isZ]
 
 example : let s : ATAD ℚ 1 2 := ⟨fun _ _ => 1, .diag (fun _ => 1), fun _ => 1⟩
     s.useWoodbury = true ∧ (∀ c : Vec ℚ 1, mulVec (gWoodbury s.A (fun _ => 1) s.W) (fun i => c i / 3) = c) := by
